@@ -38,6 +38,9 @@ def sym(symbol, i, fname):
                     exp=[str(v), str(v + 40)], name=None, kind="free")
     if symbol == "ts1":
         return dict(pat="N(%s)" % n, ty="N", arg="N(%d)" % v, show=[n], exp=[str(v)], name=n, kind="single")
+    if symbol == "tsu":
+        # destructuring whose single binding starts with an underscore
+        return dict(pat="N(_%s)" % n, ty="N", arg="N(%d)" % v, show=["_" + n], exp=[str(v)], name="_" + n, kind="single")
     if symbol == "ts2":
         return dict(pat="N2(%s, _)" % n, ty="N2", arg="N2(%d, 0)" % v, show=[n], exp=[str(v)], name=n, kind="single")
     if symbol == "st":
@@ -69,7 +72,7 @@ def sym(symbol, i, fname):
     raise KeyError(symbol)
 
 
-SYMS = ["id", "mut", "ref", "raw", "wild", "tup", "ts1", "ts2", "st", "refpat", "fnname", "gnext", "gprev", "suffix", "tsfn", "rawfn", "rawgen"]
+SYMS = ["id", "mut", "ref", "raw", "wild", "tup", "ts1", "ts2", "st", "refpat", "fnname", "gnext", "gprev", "suffix", "tsfn", "rawfn", "rawgen", "tsu"]
 FNAMES = ["f", "r#type", "r#g", "arg1"]   # plain, raw keyword, raw non-keyword, spelled like a generated parameter name
 
 
